@@ -1,6 +1,8 @@
 package main
 
 import (
+	"crypto/sha256"
+	"encoding/hex"
 	"fmt"
 	"go/ast"
 	"go/parser"
@@ -119,6 +121,41 @@ func c27tags(all map[string]*c27struct, s *c27struct, depth int) []string {
 func genC27(o *Out) {
 	_ = o.pinFile("util/encoder/json/encoder.go", "Encoder.Decode", "Encoder.DecodeWithHint", "Encoder.decodeWithHint", "Encoder.analyze", "Encoder.guessHint")
 	_ = o.pinFile("util/json_sonic.go", "marshalJSON", "unmarshalJSON")
+	// every hand-written codec of the protocol objects: one pin per file over all its MarshalJSON / DecodeJSON /
+	// UnmarshalJSON methods (what each does with a member's value is not modelled; a change there sends the check
+	// to the differential run for a failing object)
+	for _, pat := range []string{"*/*.go", "*/*/*.go", "*/*/*/*.go"} {
+		files, _ := filepath.Glob(filepath.Join(repoRoot, pat))
+		sort.Strings(files)
+		for _, abs := range files {
+			if strings.HasSuffix(abs, "_test.go") || strings.HasSuffix(abs, "_verif.go") || strings.Contains(abs, "/test_") {
+				continue
+			}
+			rel, _ := filepath.Rel(repoRoot, abs)
+			f, err := load(rel)
+			if err != nil {
+				o.errf("%s: %v", rel, err)
+				continue
+			}
+			var parts []string
+			for _, d := range f.AST.Decls {
+				fd, ok := d.(*ast.FuncDecl)
+				if !ok || fd.Body == nil {
+					continue
+				}
+				switch fd.Name.Name {
+				case "MarshalJSON", "DecodeJSON", "UnmarshalJSON", "decodeJSON", "jsonMarshaller", "JSONMarshaler":
+					parts = append(parts, recvName(fd)+"."+fd.Name.Name+":"+f.normSrc(fd))
+				}
+			}
+			if len(parts) == 0 {
+				continue
+			}
+			sort.Strings(parts)
+			h := sha256.Sum256([]byte(strings.Join(parts, "\n")))
+			o.pins = append(o.pins, [2]string{rel, hex.EncodeToString(h[:8])})
+		}
+	}
 	all, errs := c27collect()
 	for _, e := range errs {
 		o.errf("%s", e)
